@@ -1,6 +1,7 @@
 import LyModel.Diff.Lemmas13Merge
 import LyModel.Diff.Lemmas13Inv
 import LyModel.Diff.LemmasExact
+import LyModel.Diff.LemmasRevLit
 /-!
 # C13 — diffs can be reversed and composed (`src/diff.c`: `lyd_diff_reverse_all`, `lyd_diff_merge_all`)
 
@@ -70,8 +71,64 @@ theorem reverse_apply_diff {S : Schema} {fx : Fixes} (K : KeyOrder S) {A B₀ : 
       dataEqL true A' A = true :=
   reverse_apply_partial K (goodT_of_wfForest S A hA) (diff_exact S A B₀ hA hB)
 
--- OPEN: the statement with the literal second tree, `apply B₀ (reverse (diff A B₀)) ≈ A`: C06 `apply_diff_partial` gives
--- `apply A (diff A B₀) ≈ B₀`; what is missing is that `apply` respects `dataEqL true` in its data argument.
+/-- `reverse_apply` on the fragment, with the literal second tree — the law as the check evaluates it (`reverseApply` =
+`lyd_diff_apply_all(B, lyd_diff_reverse_all(lyd_diff_siblings(A, B, DEFAULTS)))`): for well-formed `A`, `B` it succeeds and
+gives `A` back (structure, values, default flags of leaves / leaf-list instances).  `KeysDistinguished` is the hypothesis of C06
+`apply_diff_partial` (instances the `sort` callback cannot tell apart are the same instance).  Uses `apply_congr`
+(Diff/LemmasCongr.lean): `lyd_diff_apply_all` respects the observation in its data argument, for every diff and schema. -/
+theorem reverse_apply {S : Schema} {fx : Fixes} (K : KeyOrder S) (A B : List DNode) (hA : wfForest S A = true)
+    (hB : wfForest S B = true) (hk : KeysDistinguished S (A ++ B)) :
+    ∃ A', reverseApply S true A B fx = .ok A' ∧ dataEqL true A' A = true := by
+  obtain ⟨R, A', hR, hA', hn⟩ := reverse_apply_literal (fx := fx) K A B hA hB hk
+  refine ⟨A', ?_, (dataEqL_iff_norm A' A).mpr hn⟩
+  simp [reverseApply, hR, Except.bind, applyD, hA']
+
+/-- LIMITATION of every theorem here that assumes `KeyOrder S`: the hypothesis cannot hold for a schema with a keyed
+system-ordered list that has a key leaf.  `KeyOrder` quantifies over all nodes of the right shape (`Dom`), also list instances
+whose key children are missing: `x` = an instance without key children, `y` = one with a key child are not the same instance
+(`sameInst`) and `cmpInst` (`rb_compare_lists` stops at the shorter key list) cannot order them, against `KeyOrder.total`.  So
+`reverse_apply*` / `merge_cell_apply` speak about leaves, containers and system-ordered leaf-lists (`keyOrder_of_stringLL`);
+for keyed lists `KeyOrder` would have to be restricted to instances with all their keys (a stronger `Dom` / `goodT`).
+`diff_exact`, `reverse_involutive_diff` and `apply_congr` do not assume `KeyOrder` and cover keyed lists. -/
+theorem keyOrder_no_keyed_list {S : Schema} (K : KeyOrder S) {s k : Nat} (hs : S.isSorted s = true)
+    (hl : S.isKind s .list = true) (hk : S.isKey k = true) : False := by
+  have hkind : S.kind? s = some .list := isKind_iff.mp hl
+  have hnt : S.isTerm s = false := by simp [Schema.isTerm, Schema.isKind, hkind]
+  have hnu : S.isUserOrd s = false := by
+    unfold Schema.isSorted at hs
+    unfold Schema.isUserOrd
+    cases hg : S.get? s with
+    | none => rfl
+    | some n => simp [hg] at hs ⊢; simp [hs.1]
+  have hnk : S.nkeys s ≠ 0 := by
+    unfold Schema.isSorted at hs
+    unfold Schema.isKind Schema.kind? at hl
+    unfold Schema.nkeys
+    cases hg : S.get? s with
+    | none => simp [hg] at hs
+    | some n =>
+      simp [hg] at hs hl ⊢
+      rcases hs.2 with h | h
+      · rw [hl] at h; exact absurd h (by decide)
+      · exact h.2
+  have hnd : S.isDupInst s = false := by
+    unfold Schema.isDupInst
+    unfold Schema.isKind Schema.kind? at hl
+    unfold Schema.nkeys at hnk
+    cases hg : S.get? s with
+    | none => rfl
+    | some n =>
+      simp [hg] at hl hnk ⊢
+      simp [hl, hnk]
+  let x : DNode := .inner s {} [] []
+  let y : DNode := .inner s {} [] [.term k {} [] []]
+  have hx : Dom S x := ⟨hnu, hnd, by simp [x, DNode.isTerm, DNode.sid, hnt]⟩
+  have hy : Dom S y := ⟨hnu, hnd, by simp [y, DNode.isTerm, DNode.sid, hnt]⟩
+  have hsame : sameInst S x y = false := by
+    simp [sameInst, x, y, DNode.sid, DNode.kids, hkind, hnk, keysOf, hk, keysEq]
+  rcases K.total hx hy rfl hs hsame with h | h
+  · simp [cmpInst, x, y, DNode.isTerm, DNode.kids, keysOf, cmpKeys] at h
+  · simp [cmpInst, x, y, DNode.isTerm, DNode.kids, keysOf, cmpKeys] at h
 
 /-! ### a non-trivial instance: leaf replace with default-flag change, leaf delete, leaf-list create / delete, container delete -/
 
@@ -103,6 +160,9 @@ theorem reverse_involutive {S : Schema} {A D : List DNode} (hD : exactDiff S A D
 
 example : stdL (diff exS true exA exB) = true := by decide +kernel
 example : wfForest exS exA = true ∧ wfForest exS exB = true := by decide +kernel
+example : ∃ A', reverseApply exS true exA exB = .ok A' ∧ dataEqL true A' exA = true :=
+  reverse_apply (keyOrder_of_stringLL (by decide +kernel)) exA exB (by decide +kernel) (by decide +kernel)
+    (keysDistinguished_of_check _ _ (by decide +kernel))
 example : exactDiff exS exA (diff exS true exA exB) = true := diff_exact exS exA exB (by decide +kernel) (by decide +kernel)
 
 /-- `reverse_involutive` for every computed diff of well-formed trees, unconditionally: `diff(A, B)` is exact (`diff_exact`)
